@@ -164,6 +164,11 @@ class StreamCounter:
         P.check(self.max_open <= self.N, "open-streams<=max_connections(apart from evicted ones being closed)",
                 f"{self.sig}:streams>{self.N}", prop="C04")
         P.check(len(self.su.pool.connections) <= self.N, "pooled-connections<=max_connections", f"{self.sig}:pooled>{self.N}", prop="C04")
+        # "apart from connections it has already evicted and is closing": once every caller has returned nothing is
+        # still being closed - a connection that left the pool but still holds its stream is simply an extra stream
+        lingering = [c for c in self.su.pool._discipline.removed if not c.is_closed()]
+        P.check(len(self.su.net.open_socks()) - 0 <= self.N or not lingering, "open-streams<=max_connections-at-quiescence",
+                lambda: f"{self.sig}:lingering-evicted-connection:streams={len(self.su.net.open_socks())}", prop="C04")
         # the frame condition of the inductive argument: the connection list changes only inside the pool's own
         # functions and (sync pool) only while the pool lock is held
         d = self.su.pool._discipline
